@@ -48,4 +48,43 @@ reloads from, and loads local heads followed by remote heads -/
 theorem reload_sources_tied_to_go_text : Gen.loadDecodes = Order.loadDecodes ∧ Gen.loadDecodesHeads = Order.loadHeads :=
   gen_loadDecodes
 
+/-- **Nothing the cache pointed to is forgotten by a replication round**, whatever the store had
+loaded and with whatever limit: every remote head cached before `replicationLoadComplete` is still
+cached after it, or the log now holds it — and what the log holds is covered by the new heads
+(`cached_heads_cover_the_log`). So a limited `Load`, any number of replication rounds, a restart and a
+full `Load` still reach every entry that was ever reported as replicated (finding F26, `fix:` commit). -/
+theorem replication_never_forgets_cached_heads (acl : Acl) (s : Store) (logs : List (OMap × OMap)) :
+    ∀ h ∈ s.remoteHeads.getD [], h ∈ (s.loadEnd acl logs).remoteHeads.getD [] ∨
+      has (s.loadEnd acl logs).log.entries h = true :=
+  loadEnd_keeps_cached acl s logs
+
+/-- on a store that holds everything its cache points to (every store of the crash theorem above)
+that rule writes exactly the heads of the merged log, as before -/
+theorem on_fully_loaded_stores_the_cache_is_the_heads_of_the_log (acl : Acl) (s : Store) (logs : List (OMap × OMap))
+    (h : ∀ x ∈ s.remoteHeads.getD [], has s.log.entries x = true) :
+    (s.loadEnd acl logs).remoteHeads = some ((sortedHeads (s.loadEnd acl logs).log).map (·.hash)) := by
+  rw [loadEnd_eq_loadEnd0 acl s logs h]; rfl
+
+namespace LimitedLoadExample
+/-- writer 0's chain 1 ← 2 ← 3, writer 1's branch 4 ← 5, then writer 0's 6 on top of 3 -/
+def e (h t c : Nat) (next : List Nat) : Entry := { hash := h, logId := 1, time := t, cid := c, next := next }
+def e3 : Entry := e 3 3 0 [2]
+def e6 : Entry := e 6 4 0 [3]
+def acl : Acl := { wildcard := true }
+/-- the store after a restart and `Load(1)`: the log holds the newest entry only, the cache still
+names both heads of the persisted log -/
+def s : Store := { kind := .log, log := { (Log.empty 1) with entries := [e3], heads := [e3] }, remoteHeads := some [3, 5] }
+end LimitedLoadExample
+
+/-- Refutation witness for the tree before that repair: after `Load(1)` the log holds entry 3 only;
+one replication round (entry 6) rewrote `_remoteHeads` with the heads of that log: head 5 — the
+other writer's branch, reported as replicated in an earlier life — was neither cached nor held any
+more, and the next restart with `Load(-1)` could not reach it (replayed on the real store:
+corpus/C05/f26). The current rule keeps it. -/
+theorem limited_load_then_replication_forgot_a_branch_before_the_fix :
+    open LimitedLoadExample in
+    ((s.loadEnd0 acl [([e6], [e6])]).remoteHeads = some [6] ∧ has (s.loadEnd0 acl [([e6], [e6])]).log.entries 5 = false) ∧
+    (s.loadEnd acl [([e6], [e6])]).remoteHeads = some [6, 5] := by
+  decide
+
 end Orbit.C05
